@@ -27,7 +27,7 @@ fn gen_op(kind: Kind, g: &mut Gen, r: Regime, i: usize) -> Op {
 /// (a) serialized size in every state of every short sequence
 fn short_job(ctx: &Ctx, cfg: &Cfg, depth: usize) -> JobOut {
     let mut out = JobOut::default();
-    let alpha: Vec<Op> = generic_alphabet(cfg.kind, false)[..3].to_vec();
+    let alpha: Vec<Op> = with_reset(generic_alphabet(cfg.kind, false)[..3].to_vec());
     let b = bound(cfg);
     let mut ops: Vec<Op> = vec![];
     let mut n = 0u64;
@@ -67,8 +67,19 @@ fn short_job(ctx: &Ctx, cfg: &Cfg, depth: usize) -> JobOut {
     out
 }
 
+#[derive(Clone, Copy, Debug, PartialEq)]
+pub enum Variant {
+    Plain,
+    /// reset() every k inputs (reset-and-refill sessions on the same instance)
+    ResetEvery(usize),
+    /// one NaN-carrying input right after warm-up
+    OneNan,
+    /// bincode round trip right after warm-up; the run continues on the restored copy
+    SerdeAfterWarmup,
+}
+
 /// (b) long runs: serialized size at checkpoints, live heap after warm-up vs after every segment
-fn long_job(cfg: &Cfg, regimes: &[Regime], seglen: usize, seed: u64, out: &mut JobOut) {
+fn long_job(cfg: &Cfg, regimes: &[Regime], seglen: usize, seed: u64, variant: Variant, out: &mut JobOut) {
     let b = bound(cfg) as isize;
     let n = cfg.max_period();
     let warm = 3 * n + 3;
@@ -79,6 +90,19 @@ fn long_job(cfg: &Cfg, regimes: &[Regime], seglen: usize, seed: u64, out: &mut J
         for i in 0..warm {
             let op = gen_op(cfg.kind, &mut g, Regime::Walk, i);
             s.apply(&op);
+        }
+        match variant {
+            Variant::SerdeAfterWarmup => {
+                let bytes = s.ser().unwrap_or_default();
+                if let Ok(r) = s.de(&bytes) {
+                    s = r;
+                }
+            }
+            Variant::OneNan => {
+                let nan = if cfg.kind.has_scalar() { Op::S(f64::NAN) } else { Op::B(Bar { o: 1.0, h: f64::NAN, l: f64::NAN, c: f64::NAN, v: 1.0 }) };
+                s.apply(&nan);
+            }
+            _ => {}
         }
         let size0 = s.ser().map(|v| v.len()).unwrap_or(usize::MAX);
         let h1 = heap::live();
@@ -91,6 +115,11 @@ fn long_job(cfg: &Cfg, regimes: &[Regime], seglen: usize, seed: u64, out: &mut J
                 let op = gen_op(cfg.kind, &mut g, *r, i);
                 s.apply(&op);
                 t += 1;
+                if let Variant::ResetEvery(k) = variant {
+                    if t % k == 0 {
+                        s.reset();
+                    }
+                }
                 if i % 4999 == 0 {
                     let sz = s.ser().map(|v| v.len()).unwrap_or(usize::MAX);
                     worst_size = worst_size.max(sz);
@@ -110,7 +139,7 @@ fn long_job(cfg: &Cfg, regimes: &[Regime], seglen: usize, seed: u64, out: &mut J
             out.stats.states += regimes.len() as u64 + 1;
             out.stats.evaluations += 2;
             out.stats.nontrivial += 1;
-            let name: Vec<&str> = regimes.iter().map(|r| r.name()).collect();
+            let name: Vec<String> = regimes.iter().map(|r| r.name().to_string()).chain(std::iter::once(format!("{:?}", variant))).collect();
             if worst_size as isize > b {
                 out.fail(
                     Violation::new(PROP, cfg, &[], "serialized-size-exceeds-bound")
@@ -156,7 +185,7 @@ pub fn run(ctx: &Ctx) -> CheckResult {
         } else {
             (vec![1, 2, 5, 14, 64, 257], 20_000)
         };
-        let mut jobs: Vec<(Cfg, Vec<Regime>, usize)> = vec![];
+        let mut jobs: Vec<(Cfg, Vec<Regime>, usize, Variant)> = vec![];
         for k in ALL_KINDS {
             for &p in &periods {
                 if k.nperiods() == 0 && p != periods[0] {
@@ -175,21 +204,27 @@ pub fn run(ctx: &Ctx) -> CheckResult {
                     if th && p > 16 && pi % 3 != 0 && !linear {
                         continue;
                     }
-                    jobs.push((cfg, pair.clone(), l));
+                    jobs.push((cfg, pair.clone(), l, Variant::Plain));
+                    // variants on every 4th pair: reset-and-refill sessions, a NaN, a serde round trip
+                    if pi % 4 == 0 {
+                        for v in [Variant::ResetEvery(10), Variant::ResetEvery(2 * p + 1), Variant::OneNan, Variant::SerdeAfterWarmup] {
+                            jobs.push((cfg, pair.clone(), l, v));
+                        }
+                    }
                 }
             }
         }
         jobs.sort_by_key(|j| std::cmp::Reverse(j.2 * if matches!(j.0.kind, Kind::Mad | Kind::Cci | Kind::Er) { j.0.p[0] } else { 1 }));
         res.extra.insert("long_runs".into(), json!(jobs.len()));
-        let chunks: Vec<&[(Cfg, Vec<Regime>, usize)]> = jobs.chunks(4).collect();
+        let chunks: Vec<&[(Cfg, Vec<Regime>, usize, Variant)]> = jobs.chunks(4).collect();
         let outs = par_run(ctx, &chunks, |_, chunk| {
             let mut out = JobOut::default();
-            for (cfg, pair, l) in chunk.iter() {
+            for (cfg, pair, l, v) in chunk.iter() {
                 if ctx.out_of_time() {
                     out.stats.capped.push("time cap in long runs".into());
                     break;
                 }
-                long_job(cfg, pair, *l, ctx.seed, &mut out);
+                long_job(cfg, pair, *l, ctx.seed, *v, &mut out);
                 if out.failed() {
                     break;
                 }
@@ -209,7 +244,7 @@ pub fn run(ctx: &Ctx) -> CheckResult {
     }
     res.exhaustive = false;
     res.rule = "case = (configuration, stream): (a) bincode length of the real object in every state of every short sequence; (b) long generated streams (every ordered pair of shape segments): serialized length at checkpoints and live heap bytes of the executing thread (counting global allocator) after warm-up vs after every segment; both must stay <= 256 + 64*sum(periods); non-trivial = state beyond the first window / long run".into();
-    res.bounds = format!("(a) all 22 indicators, periods 1..4, all sequences over 3 symbols up to depth min(3n+3, {}); (b) periods {} x all 36 ordered pairs of {{up, down, alternating extremes, flat, LCG walk, stair}} x segment length {} (O(n)-per-step subjects shortened and thinned)", if th { 13 } else { 10 }, if th { "1..16, 31..33, 63..65, 127..129, 255..257, 511, 512" } else { "1, 2, 5, 14, 64, 257" }, if th { 500_000 } else { 20_000 });
+    res.bounds = format!("(a) all 22 indicators, periods 1..4, all sequences over 3 symbols + reset up to depth min(3n+3, {}); (b) periods {} x all 36 ordered pairs of {{up, down, alternating extremes, flat, LCG walk, stair}} x segment length {} (O(n)-per-step subjects shortened and thinned); every 4th pair additionally with reset() every 10 / 2n+1 inputs, with one NaN input after warm-up, and continued on a bincode-restored copy", if th { 13 } else { 10 }, if th { "1..16, 31..33, 63..65, 127..129, 255..257, 511, 512" } else { "1, 2, 5, 14, 64, 257" }, if th { 500_000 } else { 20_000 });
     res.assumptions = vec!["systematically enumerated family of stream shapes, not all streams".into(), "live heap is measured per thread: memory handed to another thread would not be seen (the crate spawns no threads)".into()];
     res
 }
